@@ -173,7 +173,12 @@ pub fn gen_fault(f: &mut crate::prng::Rng, sc: &Scenario, dep: &Deployment) -> H
     let sites = crate::program::twin_sites(&sc.prog);
     if !sites.is_empty() && f.chance(1, 6) {
         let at = sites[f.usize(sites.len())];
-        let d = if f.chance(1, 2) { BlsScalar::one() } else { f.scalar() };
+        // delta 0: the instance is wired differently but every compiled copy constraint still holds
+        let d = match f.below(3) {
+            0 => BlsScalar::zero(),
+            1 => BlsScalar::one(),
+            _ => f.scalar(),
+        };
         HostFault::Twin(at, d)
     } else {
         HostFault::Witness(f.usize(dep.n_witnesses.max(1)), wfault::random(f))
@@ -187,7 +192,30 @@ pub fn run(ctx: &mut RunCtx) -> Result<(), Violation> {
     let class = if ctx.thorough { pick_class(&mut w, [10, 4, 1, 0]) } else { pick_class(&mut w, [12, 2, 0, 0]) };
     let heavy = w.chance(1, 4);
     let exact = w.chance(1, 2);
-    let sc = gen_scenario(ctx, &mut w, &ScenCfg { class, heavy, raw: true, exact_target: exact, max_ops: 20 });
+    let mut sc = gen_scenario(ctx, &mut w, &ScenCfg { class, heavy, raw: true, exact_target: exact, max_ops: 20 });
+    // structured double faults: one witness constrained on two rows half a domain apart, so that a
+    // single memory fault violates both rows by the same amount (the row errors cancel in the
+    // top coefficient of the remainder)
+    let symmetric = w.chance(1, 8) && !ctx.spec.flag("nosym");
+    if symmetric {
+        ctx.hints.extra.push(("nosym".into(), "1".into()));
+        let k = 3 + w.usize(4);
+        let n = 1usize << k;
+        let half = n / 2;
+        let total = n - w.usize(3);
+        let mut ops = vec![crate::program::Op::SymmetricPair { c: w.scalar_edgy(), half }];
+        let used = 4 + half + 1;
+        if total > used {
+            ops.push(crate::program::Op::Filler(total - used));
+        }
+        let prog = std::sync::Arc::new(crate::program::Program { ops });
+        sc.constraints = crate::program::count_constraints(&prog).unwrap_or(0);
+        sc.degree = crate::deploy::min_degree_for(sc.constraints) + w.usize(3);
+        sc.tape = crate::program::Tape::default();
+        sc.prog = prog;
+        ctx.note("program", J::s(crate::program::describe(&sc.prog)));
+        ctx.st.probe("symmetric_pair_scenarios");
+    }
     let env = ctx.env(&mut s);
     let dep = match deploy_scenario(ctx, &sc, &env)? {
         Some(d) => d,
@@ -217,7 +245,12 @@ pub fn run(ctx: &mut RunCtx) -> Result<(), Violation> {
     } else {
         let n = if ctx.thorough { 24 } else { 12 };
         for _ in 0..n {
-            faults.push(gen_fault(&mut f, &sc, &dep));
+            if symmetric && f.chance(2, 3) {
+                // the pair's witness is the first one after the composer's own six
+                faults.push(HostFault::Witness(6, wfault::random(&mut f)));
+            } else {
+                faults.push(gen_fault(&mut f, &sc, &dep));
+            }
         }
     }
     ctx.hints.n_faults = faults.len();
